@@ -74,6 +74,24 @@ Proof.
     apply wb_sub_tail; autorewrite with blen; zfold; lia.
 Qed.
 
+(* what the accessors read from an emitted header followed by arbitrary octets
+   (used by the ICMPv6 model, which embeds an IPv6 header) *)
+Lemma ipv6_bytes_accessors r rest : ipv6_wf r = true ->
+  let bs := ipv6_bytes r ++ rest in
+  ipv6_src_addr bs = Ok (ipv6_src r) /\ ipv6_dst_addr bs = Ok (ipv6_dst r) /\
+  ipv6_next_header bs = Ok (ipv6_nxt r) /\ ipv6_payload_len_ bs = Ok (ipv6_payload_len r) /\
+  ipv6_hop_limit_ bs = Ok (ipv6_hop_limit r).
+Proof.
+  intros Hwf. apply ipv6_wf_inv in Hwf. destruct Hwf as (H1 & H2 & _ & _ & Hn & Hh & Hp).
+  destruct r as [s d n pl hop]; cbn [ipv6_src ipv6_dst ipv6_hop_limit ipv6_nxt ipv6_payload_len] in *.
+  cells H1. cells H2.
+  unfold ipv6_bytes. cbn [ipv6_src ipv6_dst ipv6_hop_limit ipv6_nxt ipv6_payload_len].
+  unfold be_enc2. cbn [app]. refold_tail rest. cbv zeta.
+  unfold ipv6_payload_len_, ipv6_src_addr, ipv6_dst_addr, ipv6_next_header, ipv6_hop_limit_, wb_get_u16, wb_field.
+  zfold. hstep. rewrite (be_dec_cells2 pl) by lia. hstep. hstep. hstep. hstep.
+  unfold wb_arr. autorewrite with blen. zfold. cbn [obind]. repeat split; reflexivity.
+Qed.
+
 Lemma ipv6_roundtrip r b : ipv6_wf r = true -> blen b = ipv6_buffer_len r ->
   exists bs, ipv6_emit r b = Ok bs /\ blen bs = ipv6_buffer_len r /\
     forall payload, blen payload = ipv6_payload_len r ->
@@ -85,25 +103,6 @@ Proof.
 Qed.
 
 (* ---------- C07 ---------- *)
-
-Lemma wb_get_u8_byte bs i : 0 <= i < blen bs -> bytes_ok bs = true ->
-  exists v, wb_get_u8 bs i = Ok v /\ 0 <= v < 256.
-Proof.
-  intros Hi Hb. rewrite wb_get_u8_ok by lia. eexists; split; [reflexivity|].
-  apply bytes_ok_nth; [assumption | unfold blen in *; lia].
-Qed.
-
-Lemma wb_get_u16_word bs f : 0 <= fst f -> fst f + 2 <= snd f -> snd f <= blen bs ->
-  bytes_ok bs = true -> exists v, wb_get_u16 bs f = Ok v /\ 0 <= v < 65536.
-Proof.
-  intros H1 H2 H3 Hb. unfold wb_get_u16, wb_get_be. rewrite wb_sub_ok by lia. cbn [obind].
-  set (s := firstn _ _).
-  assert (Hs : blen s = snd f - fst f) by (unfold s; rewrite blen_firstn; [lia | rewrite blen_skipn; lia]).
-  assert (Hbs : bytes_ok s = true) by (apply bytes_ok_firstn, bytes_ok_skipn, Hb).
-  rewrite Hs. zbool. eexists; split; [reflexivity|]. zfold.
-  destruct s as [|a [|b' s']]; [unfold blen in Hs; cbn in Hs; lia | unfold blen in Hs; cbn in Hs; lia |].
-  cbn [firstn]. cbn [bytes_ok forallb] in Hbs. bsplit. rewrite be_dec2. lia.
-Qed.
 
 Lemma ipv6_check_len_inv bs : bytes_ok bs = true -> ipv6_check_len bs = Ok tt ->
   exists l, ipv6_payload_len_ bs = Ok l /\ 0 <= l < 65536 /\ 40 + l <= blen bs.
